@@ -14,6 +14,7 @@ mod c20;
 mod c11;
 mod c15;
 mod c09;
+mod c06;
 
 fn main() {
     std::panic::set_hook(Box::new(|_| {}));
@@ -38,6 +39,7 @@ fn main() {
         "c11" => c11::run(tier, seed, &mut out),
         "c15" => c15::run(tier, seed, &mut out),
         "c09" => c09::run(tier, seed, &mut out),
+        "c06" => c06::run(tier, seed, &mut out),
         _ => {
             eprintln!("unknown family {}", fam);
             std::process::exit(2);
